@@ -8,12 +8,25 @@ def U(id, entry, enforce=None, replace=(), **kw):
 UNITS = [
     U("free_space", "h_free_space", "pp_shm_buffer_get_free_space", canaries=2),
     U("used_space", "h_used_space", "pp_shm_buffer_get_used_space", canaries=2),
-    U("write", "h_write", "p_shm_buffer_write", canaries=5, defines_quick=["MAXM_BITS=31"], defines_thorough=["MAXM_BITS=40"], timeout_thorough=1800,
-      bound={"quick": "capacity (ring modulus) <= 2^31 bytes; positions, lengths, contents unconstrained", "thorough": "capacity <= 2^40 bytes (CBMC pointer-offset width limits the modelled object size)"}),
-    U("read", "h_read", "p_shm_buffer_read", canaries=5, defines_quick=["MAXM_BITS=31"], defines_thorough=["MAXM_BITS=40"], timeout_thorough=1800,
-      bound={"quick": "capacity (ring modulus) <= 2^31 bytes; positions, lengths, contents unconstrained", "thorough": "capacity <= 2^40 bytes"}),
+    U("write", "h_write", "p_shm_buffer_write", canaries=5, defines_quick=["MAXM_BITS=32"], defines_thorough=["MAXM_BITS=40"], timeout_thorough=1800,
+      bound={"quick": "capacity (ring modulus) <= 2^32 bytes; positions, lengths, contents unconstrained", "thorough": "capacity <= 2^40 bytes (CBMC pointer-offset width limits the modelled object size)"}),
+    U("read", "h_read", "p_shm_buffer_read", canaries=5, defines_quick=["MAXM_BITS=32"], defines_thorough=["MAXM_BITS=40"], timeout_thorough=1800,
+      bound={"quick": "capacity (ring modulus) <= 2^32 bytes; positions, lengths, contents unconstrained", "thorough": "capacity <= 2^40 bytes"}),
     U("get_free", "h_get_free", "p_shm_buffer_get_free_space", canaries=2),
     U("get_used", "h_get_used", "p_shm_buffer_get_used_space", canaries=2),
     U("clear", "h_clear", "p_shm_buffer_clear", canaries=2),
+    U("new_free_own", "h_new", None, harness="newfree.c", canaries=3, memleak=True, functions=["p_shm_buffer_new", "p_shm_buffer_free", "p_shm_buffer_take_ownership"],
+      cbmc_flags=["--memory-leak-check"]),
+    U("new_null", "h_new_null", None, harness="newfree.c", functions=[]),
     U("lemma_used_plus_free", "h_lemma_used_plus_free", None, functions=[]),
 ]
+
+TECHNIQUE = "CBMC function contracts (DFCC) on the real pshmbuffer.c; monitor-rule lock model; bulk copies checked through a memcpy call log so that byte placement is proved for symbolic capacity"
+LEVEL_TEXT = ("Contracts on every function of pshmbuffer.c: space arithmetic for every modulus/positions; write/read: return value, new positions, "
+              "placement of every byte (ghost index = forall) via the logged memcpy calls, no overwrite of unread bytes, all segment accesses inside exactly one "
+              "lock/unlock bracket (monitor rule: header havocked at lock and after unlock), frame = 16 header bytes + ghosts (DFCC assigns check), "
+              "for every capacity up to 2^32 (quick) / 2^40 (thorough) bytes, every position and every length; loop-free, no unwinding. "
+              "new/free/take_ownership against the C07 contract of PShm.")
+LEVEL_NOTE = ("Trusted: memcpy/memset call-log model (bulk copies are recorded, not performed; meaning of a recorded copy is memcpy's C semantics), "
+              "monitor-rule soundness, p_shm_* model (proved of the real code in C07), allocator model. Capacity bounded at 2^32/2^40 by solver time and "
+              "CBMC's pointer-offset width. Cross-process visibility is the kernel's. Known findings: read count > INT_MAX, open with smaller size.")
